@@ -115,4 +115,22 @@ example : (run (init { retryMax := 1, icepts := 0, idem := true })
 example : (run (init { retryMax := 1, icepts := 0, idem := true })
             [.stampAt 0 0 0, .stampAt 1 0 0, .stampAt 1 0 1, .stampAt 1 0 2, .stampAt 0 1 0, .stampAt 1 1 3]).toOption.isNone = true := by decide
 
+/-! ### an epoch bump belongs to exactly one failed, sequenced message -/
+
+/-- **bump_only_for_failed_sequenced_message**: the acceptor takes an epoch-bump event only for a message that has an error
+    event and carried a sequence number, and only once per message -/
+theorem bump_only_for_failed_sequenced_message (s s' : St) (id : Int) (h : step s (.bump id) = .ok s') :
+    id ∈ s.errs ∧ s.seqLog.count id ≠ 0 ∧ s.bumps.count id = 0 ∧ s'.bumps = id :: s.bumps := by
+  simp only [step] at h
+  split at h; · cases h
+  split at h; · cases h
+  split at h; · cases h
+  rename_i h1 h2 h3
+  injection h with h; subst h
+  exact ⟨by simpa using h1, by simpa using h2, by simpa using h3, rfl⟩
+
+/-- what the driver checks when the producer has closed: no failed sequenced message is left without its bump -/
+example : unbumped ({ (init { retryMax := 1, icepts := 0, idem := true }) with errs := [7], seqLog := [7] }) = [7] := by decide
+example : unbumped ({ (init { retryMax := 1, icepts := 0, idem := true }) with errs := [7], seqLog := [7], bumps := [7] }) = [] := by decide
+
 end Props.C05stamps
